@@ -49,6 +49,12 @@ SHAPES = {
                   "sources": ["s1", "g1"]},
     # dependency edges are rewired (see RESHAPE): T3 moves from T2 to T1
     "rewire": {"targets": {"T1": T(srcs=["s1"]), "T2": T(srcs=["s2"]), "T3": T(deps=["T2"])}, "sources": ["s1", "s2"]},
+    # an edge disappears (see RESHAPE): T2 no longer depends on T1
+    "unwire": {"targets": {"T1": T(srcs=["s1"]), "T2": T(deps=["T1"], srcs=["s2"])}, "sources": ["s1", "s2"]},
+    # names that are string prefixes of one another; T1 and source r go away (see RESHAPE)
+    "prefix": {"targets": {"T1": T(srcs=["r"]), "T1x": T(srcs=["r.txt.x"]), "T2": T(deps=["T1x", "T1"])}, "sources": ["r", "r.txt.x"]},
+    # a failing target next to an independent branch that becomes ready later
+    "twobranch": {"targets": {"F": T(srcs=["s1"]), "A": T(srcs=["s2"]), "C": T(deps=["A"]), "D": T(deps=["F", "C"])}, "sources": ["s1", "s2"]},
     # one dependency written with two spellings of its label by two dependents
     "altlabel": {"targets": {"A": T(srcs=["s1"], pkg="lib"), "B": T(deps=["A"]), "C": T(deps=["A"], alt=["A"]), "D": T(deps=["B", "C"])}, "sources": ["s1"]},
 }
@@ -64,7 +70,9 @@ RESHAPE = {
     "grow": {"targets": {"T1": T(srcs=["s1"]), "T2": T(deps=["T1"]), "T3": T(deps=["T2"], srcs=["s2"])}, "sources": ["s1", "s2"]},
     "alwaysoff": {"targets": {"T1": T(), "T2": T(deps=["T1"]), "T3": T(srcs=["s1"])}, "sources": ["s1"]},
     "chain3": {"targets": {"T1": T(srcs=["s1"]), "T2": T(deps=["T1"])}, "sources": ["s1"]},
-    "rewire": {"targets": {"T1": T(srcs=["s1"]), "T2": T(srcs=["s2"]), "T3": T(deps=["T1"])}, "sources": ["s1", "s2"]}}
+    "rewire": {"targets": {"T1": T(srcs=["s1"]), "T2": T(srcs=["s2"]), "T3": T(deps=["T1"])}, "sources": ["s1", "s2"]},
+    "unwire": {"targets": {"T1": T(srcs=["s1"]), "T2": T(deps=[], srcs=["s2"])}, "sources": ["s1", "s2"]},
+    "prefix": {"targets": {"T1x": T(srcs=["r.txt.x"]), "T2": T(deps=["T1x"])}, "sources": ["r.txt.x"]}}
 
 
 def mon_shape(s):
@@ -320,6 +328,9 @@ def harness_cases(tier, sd):
             add("gc", name, [B(top), {"op": "delete", "s": s0}, dict(B(top, gc=True), clean=False), {"op": "restore", "s": s0}, B(top), B(top)], twin="gc")
             add("gc", name, [B(top), {"op": "delete", "s": s0}, dict(B(top, gc=True, index=True), clean=False), {"op": "restore", "s": s0}, B(top)], twin="gc")
         add("fail", name, [B(top, fail=[inner[0]]), B(inner[0]), B(top)])
+        # the edit that made a target fail is undone: its last attempt still failed
+        add("fail", name, [B(top), {"op": "edit_env", "t": inner[0]}, B(top, fail=[inner[0]]), {"op": "revert_env", "t": inner[0]}, B(top), B(top)])
+        add("fail", name, [B(top), {"op": "edit_env", "t": top}, B(top, fail=[top]), {"op": "revert_env", "t": top}, B(top), B(top)])
         # a failure, then the failed target alone succeeds, then everything: its dependents must notice
         add("fail", name, [B(top), es, B(top, fail=[inner[0]]), B(inner[0]), B(top), B(top)])
         add("fail", name, [B(top), es, B(top, fail=[inner[0]]), es, B(inner[0]), B(top), B(top)])
@@ -355,6 +366,15 @@ def harness_cases(tier, sd):
     # a dependency edge moves; afterwards only the new dependency's inputs matter
     add("part", "rewire", [B("T3"), B("T1"), {"op": "reshape"}, B("T3"), {"op": "edit_src", "s": "s1"}, B("T3"), B("T3")])
     add("part", "rewire", [B("T3"), B("T1"), {"op": "reshape"}, B("T3"), {"op": "edit_src", "s": "s2"}, B("T3"), {"op": "edit_src", "s": "s1"}, B("T1"), B("T3")])
+    # an edge is removed from an up-to-date target, then a dry run: nothing may be written
+    # (the harness bodies read their declared dependencies' outputs, so a from-scratch build of the
+    # unwired tree is not comparable: clean=False)
+    NC = lambda b: dict(b, clean=False)
+    add("dry", "unwire", [B("T2"), {"op": "reshape"}, B("T2", "dry"), NC(B("T2")), NC(B("T2"))], twin="dry")
+    add("dry", "unwire", [B("T2"), {"op": "reshape"}, B("T2", "dry"), {"op": "edit_src", "s": "s1"}, B("T1"), NC(B("T2"))], twin="dry")
+    # a failing target and an independent out-of-date branch: the dry run still predicts the branch
+    for rep in range(2 if quick else 6):
+        add("dry", "twobranch", [B("D"), {"op": "edit_src", "s": "s1"}, {"op": "edit_src", "s": "s2"}, B("D", "dry"), B("D", fail=["F"]), B("D")])
     # an always-target that stops being one after a dry run
     add("dry", "alwaysoff", [B("T2"), B("T2", "dry"), {"op": "reshape"}, B("T2"), B("T2")], twin="dry")
     add("dry", "alwaysoff", [B("T2"), {"op": "reshape"}, B("T2"), B("T2")])
@@ -400,6 +420,9 @@ def harness_cases(tier, sd):
                         continue
                     cr = {"point": p, "label": l, "hit": hit}
                     add("crash", name, [B(top), es, B(top, crash=cr), B(top), B(top)])
+                    if p in ("index.created", "save.created", "save.encoded") and hit == 1:
+                        # what the death left behind is first read by a command that prefers the index
+                        add("crash", name, [B(top), es, B(top, crash=cr), B(top, gc=True, index=True), B(top)])
                     if not quick:
                         add("crash", name, [B(top, crash=cr), B(top), B(top)])
                         add("crash", name, [B(top), es, B(top, crash=cr), es, B(top, fail=[sorted(shape["targets"])[0]]), B(top), B(top)])
@@ -515,13 +538,24 @@ def pipeline(tier):
         for c in cases:
             f.write(json.dumps({k: v for k, v in c.items() if k not in ("expect", "exact")}) + "\n")
 
+    crashed = []
+
     def shard(i):
         env = dict(os.environ, VERIF_CASES=os.path.join(wd, "cases.ndjson"), VERIF_OUT=os.path.join(wd, "traces-%d.ndjson" % i),
                    VERIF_SHARD="%d/%d" % (i, nsh))
         open(env["VERIF_OUT"], "w").close()
-        p = vlib.run_cmd([binary, "-test.run", "^TestVerifBuild$", "-test.timeout", "3000s"], env=env, cwd=wd)
-        if p.returncode != 0:
-            raise Inconclusive("build harness failed (exit %d):\n%s" % (p.returncode, p.stdout[-3000:]))
+        for attempt in range(10):
+            p = vlib.run_cmd([binary, "-test.run", "^TestVerifBuild$", "-test.timeout", "3000s"], env=env, cwd=wd)
+            if p.returncode == 0:
+                break
+            what = vlib.fatal_in_code_under_test(p.stdout)
+            cur = env["VERIF_OUT"] + ".cur"
+            if not what or not os.path.exists(cur) or attempt == 9:
+                raise Inconclusive("build harness failed (exit %d):\n%s" % (p.returncode, p.stdout[-3000:]))
+            # dawn itself killed the process in the middle of a history: record it, go on after it
+            cid = open(cur).read().strip()
+            crashed.append({"id": cid, "what": what, "output": p.stdout[-1500:]})
+            env["VERIF_SKIP_UNTIL"] = cid
         with open(env["VERIF_OUT"]) as f:
             return [json.loads(l) for l in f]
 
@@ -563,6 +597,11 @@ def pipeline(tier):
                         "values": (c or {}).get("values", ""),
                         "kind": next(iter({t2.get("kind", "") for t2 in (c or {}).get("shape", {}).get("targets", {}).values()}), ""),
                         "around": [e for e in to_p_line(t)["events"][max(0, (x.get("at") or 1) - 6):(x.get("at") or 1)]]})
+    for c in crashed:
+        out.append({"prop": "C18", "what": "the build process was killed by the Go runtime inside dawn (run-done never delivered): " + c["what"],
+                    "l": "", "at": 0, "id": c["id"], "case": {k: vv for k, vv in (by_id.get(c["id"]) or {}).items() if k != "expect"},
+                    "values": "", "kind": "", "around": []})
+    res["process_crashes_inside_dawn"] = len(crashed)
     res["violations"] = out
     # design conformance: executed sets predicted by Build.tla vs the real ones
     drift = []
